@@ -225,6 +225,12 @@ def rand_expr(rng, pool=POOL, safe=True):
         f"{X} > 0", f"{X} && {Y}", f"defined({X}) || defined({Y})", f"defined({X}) && !defined({Y})",
         f"{X} + 1 == 2", f"({X})", f"!{X}", f"{X} == {Y}", f"{X} != {Y}", f"{X} >= 2 || {Y} < 1",
         "1", "0", f"({X} == 2) && defined({Y})", f"{X} * 2 > {Y}", f"{X} - {Y} == 0",
+        # arithmetic corners (value, signedness, precedence, literal spellings) -- C02 decides them one by one,
+        # here they steer whole groups
+        f"({X} == 1) + ({Y} == 1) == 2", f"-{X} / 2 == -1", f"{X} % 2", f"{X} << 1 > 2", f"{X} ? {Y} : 0",
+        f"!{X} == 1", f"~{X} < 0", f"{X} - 2 > 0u", f"010 == 8 && {X}", f"'a' == 97 || {X}", f"{X} & 1 == 1",
+        f"{X} | {Y} ^ 1", f"({X}, 1)" if False else f"{X} >= 1 && {X} <= 2", f"defined {X} + defined {Y} == 2",
+        f"{X} == 0x1", f"{X}L == 1l", f"2 * {X} + 1 == 3 * {Y}",
     ]
     return rng.choice(forms)
 
